@@ -226,7 +226,7 @@ rng_ff.ranges = lambda consts: dict(kind=(0, 1), step=(0, 2))
 # Other parameter types (one symbolic candidate from a tagged union, configuration flags symbolic)
 # ----------------------------------------------------------------------------------------------
 POOL = [None, Fraction(1, 2), b'ab', [1, 2], [1, 'a'], [], (1, 2), (1, 'a'), (1, 2, 3), (), D1, D2, D3, T1, T2, T2n, fn, OBJ,
-        Obj, int, {'k': 1}, 'red', '#fff', (D1, D2), (D2, D1), (T1, T2), (D1, T2n), (D1,), [D1, D2], (1.5, 2), True, 5]
+        Obj, int, {'k': 1}, 'red', '#fff', (D1, D2), (D2, D1), (T1, T2), (D1, T2n), (D1,), [D1, D2], (1.5, 2), True, 5, ['hi', 1], 'hi']
 DATES = [D1, D2, D3, T1, T2, T2n]
 MISC = ['Boolean', 'Tuple', 'NumericTuple', 'XYCoordinates', 'List', 'Selector', 'ListSelector', 'ClassSelector', 'Callable',
         'Date', 'CalendarDate', 'DateRange', 'CalendarDateRange', 'String', 'Bytes', 'Color', 'Dict']
@@ -294,12 +294,20 @@ def misc(ptype: int, route: int, kind: int, an: bool, cfg_i: int, cfg_j: int, cf
         ok = none_ok or (isinstance(v, list) and lo <= len(v) <= hi and (not cfg_b or all(isinstance(x, int) for x in v)))
     elif name == 'Selector':
         objs = [1, 'a', (1, 2), 2]
-        decl = lambda d: param.Selector(default=d, objects=list(objs), allow_None=an); dflt = 1
+        if cfg_b:       # objects declared as a {label: object} mapping: a label is not an allowed value
+            decl = lambda d: param.Selector(default=d, objects=dict(zip(('x', 'hi', 't', 'b'), objs)), allow_None=an)
+        else:
+            decl = lambda d: param.Selector(default=d, objects=list(objs), allow_None=an)
+        dflt = 1
         assume(not isinstance(v, (list, dict)) or kind != 4 or True)
         ok = none_ok or any(v == o for o in objs)
     elif name == 'ListSelector':
         objs = [1, 'a', 2]
-        decl = lambda d: param.ListSelector(default=d, objects=list(objs), allow_None=an); dflt = [1]
+        if cfg_b:
+            decl = lambda d: param.ListSelector(default=d, objects=dict(zip(('x', 'hi', 'b'), objs)), allow_None=an)
+        else:
+            decl = lambda d: param.ListSelector(default=d, objects=list(objs), allow_None=an)
+        dflt = [1]
         ok = none_ok or (isinstance(v, list) and all(any(x == o for o in objs) for x in v))
     elif name == 'ClassSelector':
         ci = pick(cfg_i, 0, 3)
